@@ -73,8 +73,11 @@ def _commentable(line):
     return not (t.endswith('\\') or t.count("'''") % 2 or t.count('"""') % 2 or '  # ' in t)
 
 
+EXTRA = {}          # shape -> further templates, switched on by a single check (they would disturb the others)
+
+
 def template_for(block, rot):
-    vs = TEMPLATES[block['shape']]
+    vs = TEMPLATES[block['shape']] + EXTRA.get(block['shape'], [])
     if block['shape'] == 'prn' and block.get('n') == 2:
         vs = [["p({k}, '{o}', 'q{k}')"], ["p({k}, '{o}', '')"]]          # two printed lines, the second possibly empty (<BLANKLINE>)
     if block.get('t') == 'ex':
